@@ -609,6 +609,23 @@ fn run_line(ctx: &mut SrvCtx, line: &str, errno: Option<i32>) -> String {
             let e = ExceptionCode::new(n);
             format!("{} {:?}", u8::from(e), e)
         }),
+        // Request::into_owned / SlaveRequest::into_owned on a request that borrows its payload: the owned value is equal
+        "OWN" => match (t.get(1).and_then(|s| s.parse::<u8>().ok()), t.get(2).and_then(|r| parse_req(r))) {
+            (Some(slave), Some(r)) => {
+                use std::borrow::Cow;
+                let borrowed: Request<'_> = match &r {
+                    Request::WriteMultipleCoils(a, c) => Request::WriteMultipleCoils(*a, Cow::Borrowed(&c[..])),
+                    Request::WriteMultipleRegisters(a, w) => Request::WriteMultipleRegisters(*a, Cow::Borrowed(&w[..])),
+                    Request::ReadWriteMultipleRegisters(a, q, b, w) => Request::ReadWriteMultipleRegisters(*a, *q, *b, Cow::Borrowed(&w[..])),
+                    Request::Custom(f, d) => Request::Custom(*f, Cow::Borrowed(&d[..])),
+                    other => other.clone(),
+                };
+                let o1 = borrowed.clone().into_owned();
+                let o2 = SlaveRequest { slave, request: borrowed }.into_owned();
+                format!("{} {}:{}", show_req(&o1), o2.slave, show_req(&o2.request))
+            }
+            _ => "ERR own".into(),
+        },
         "RFC" => parse_req(t[1]).map_or("ERR req".into(), |r| r.function_code().value().to_string()),
         "PFC" => parse_rsp(t[1]).map_or("ERR rsp".into(), |r| r.function_code().value().to_string()),
         "SLP" => unhex(t[1]).map_or("ERR hex".into(), |b| match String::from_utf8(b) {
